@@ -56,7 +56,7 @@ func (prop) Plan(tier string) []core.Phase {
 func (prop) Describe() core.Description {
 	return core.Description{
 		Level: "exploration",
-		Rule: "A scenario is a receiver kind (Polygon, MultiPoint, MultiLineString, MultiPolygon, GeometryCollection), a layout (XY, XYZ, XYM, XYZM, Layout(5), Layout(6)) and a history of up to 40 operations on two receivers: Push of a generated part (empty with a per-run probability: empty ring/line/point, polygon without rings, polygon with empty rings; built through New*Flat, SetCoords or Push), Push of a part of every other layout (must be rejected), Push of a part obtained from the receiver itself or from its clone (self-aliasing), variadic collection Push with a wrong-layout member at any position, SetLayout, Reverse, Swap(A,B), Clone, SetSRID; for MultiPolygon also polygons that live on (built by ring pushes, pushed into a receiver, taken back out through Polygon(i), then pushed onto again), each checked against its own push history. After every operation both receivers are observed completely. A run is non-trivial when at least two pushes succeeded and the history contains an empty part or a rejected push.",
+		Rule: "A scenario is a receiver kind (Polygon, MultiPoint, MultiLineString, MultiPolygon, GeometryCollection), a layout (XY, XYZ, XYM, XYZM, Layout(5), Layout(6)) and a history of up to 40 operations on two receivers: Push of a generated part (empty with a per-run probability: empty ring/line/point, polygon without rings, polygon with empty rings; built through New*Flat, SetCoords or Push), Push of a part of every other layout (must be rejected), Push of a part obtained from the receiver itself or from its clone (self-aliasing), variadic collection Push with a wrong-layout member at any position, SetLayout, Reverse, Swap(A,B), Clone (either compared and dropped, or taking the other receiver's place so that original and clone are both pushed to for the rest of the history), SetSRID; for MultiPolygon also polygons that live on (built by ring pushes, pushed into a receiver, taken back out through Polygon(i), then pushed onto again), each checked against its own push history. After every operation both receivers are observed completely. A run is non-trivial when at least two pushes succeeded and the history contains an empty part or a rejected push.",
 		StateMeasure: "distinct (kind, layout, emptiness pattern of the final parts of A, operation-kind sequence) tuples",
 		Assumptions: []string{
 			"part accessors return new objects, so only type, layout and coordinates of a part are compared (for collections the member itself)",
@@ -118,7 +118,7 @@ func (prop) Decode(raw []byte) (any, error) {
 			if s.Kind != mgeom.GC || op.L < 0 || op.L > 6 {
 				return nil, fmt.Errorf("bad setlayout")
 			}
-		case "reverse", "swap", "clone":
+		case "reverse", "swap", "clone", "cloneover":
 			if s.Kind == mgeom.GC {
 				return nil, fmt.Errorf("%s on a collection", op.K)
 			}
@@ -263,8 +263,11 @@ func (prop) Generate(r *prng.Rand, phase string) any {
 			if s.Kind == mgeom.GC {
 				op.K = "push"
 				op.Part = part(s.L)
-			} else {
+			} else if r.Chance(0.5) {
 				op.K = "clone"
+			} else {
+				// the clone lives on as the other receiver
+				op.K = "cloneover"
 			}
 		case 5:
 			op.K = "setsrid"
@@ -646,6 +649,8 @@ func (prop) Execute(scAny any, phase string, log *core.Log) core.Result {
 			dropAliases(op.R) // what was sliced from this receiver may legitimately change now
 		case "swap":
 			dropAliases(-1)
+		case "cloneover":
+			dropAliases(1 - op.R)
 		}
 		switch op.K {
 		case "xpush":
@@ -962,6 +967,24 @@ func (prop) Execute(scAny any, phase string, log *core.Log) core.Result {
 			if !tainted[op.R] && !observeAll(&res, s.Kind, "clone of "+names[op.R], c, mv, after) {
 				return res
 			}
+		case "cloneover":
+			// receiver 1-R is from now on R.Clone(): both are pushed to, reversed
+			// and swapped independently for the rest of the history
+			res.Count("probe:clone-lives-on", 1)
+			var c *lrecv
+			if p := core.Guard(func() { c = rv.clone() }); p != "" {
+				res.Fail("panic", "panic:"+s.Kind+":"+core.PanicSite(p), "%s: Clone panicked: %s", after, p)
+				return res
+			}
+			res.Steps++
+			log.Addf("%s recv %s replaces %s", after, names[op.R], names[1-op.R])
+			lib[1-op.R] = c
+			cm := &recv{L: mv.L, S: mv.S, Fixed: mv.Fixed}
+			for _, p := range mv.Parts {
+				cm.Parts = append(cm.Parts, p.Clone())
+			}
+			mod[1-op.R] = cm
+			tainted[1-op.R] = tainted[op.R]
 		case "setsrid":
 			mv.S = op.S
 			switch s.Kind {
